@@ -383,9 +383,10 @@ func (m *Manager) ApplyBatch(entries []*wal.Entry) error {
 			return err // Return ErrWALRotating for retry handling
 		}
 
-		// Apply each entry to the MemTable
-		for i, entry := range entries {
-			seqNum := startSeqNum + uint64(i)
+		// Apply each entry to the MemTable. All entries of a batch share the
+		// one sequence number the WAL consumed for it (see wal.AppendBatch)
+		for _, entry := range entries {
+			seqNum := startSeqNum
 
 			switch entry.Type {
 			case wal.OpTypePut:
